@@ -9,13 +9,41 @@ import io
 import itertools
 import random
 import re
+import signal
 import struct
+import threading
 
 import numpy as np
 
 F32_RTOL = 2.0 ** -24  # "reals to the precision of the format": IEEE single keeps 24 significant bits
 INT_FMT, LONG_FMT, FLT_FMT, DBL_FMT = "i", "q", "f", "d"
 ASC_INT, ASC_FLT = 11, 24
+
+
+class CaseTimeout(BaseException):
+    """Raised by the watchdog inside the real code; a BaseException so that armi's `except Exception` cannot eat it."""
+
+
+@contextlib.contextmanager
+def watchdog(seconds):
+    """Bound the time the real reader / writer may take on one case (a mutated loop bound must end in a verdict)."""
+    if threading.current_thread() is not threading.main_thread() or not hasattr(signal, "setitimer"):
+        yield
+        return
+
+    def handler(signum, frame):
+        raise CaseTimeout()
+
+    old = signal.signal(signal.SIGALRM, handler)
+    signal.setitimer(signal.ITIMER_REAL, seconds)
+    try:
+        yield
+    finally:
+        signal.setitimer(signal.ITIMER_REAL, 0)
+        signal.signal(signal.SIGALRM, old)
+
+
+CASE_TIMEOUT = 10.0
 
 
 def cccc_mod():
@@ -383,6 +411,8 @@ def run_record_case(case, seed):
         off += rec["framelen"]
         o = {"framelen": len(piece), "calls": calls[i] if i < len(calls) else None}
         try:
+            if len(piece) < (8 if enc == "bin" else 2 * ASC_INT + 1):
+                raise ValueError("truncated: %d of %d %s on the stream" % (len(piece), rec["framelen"], "bytes" if enc == "bin" else "characters"))
             if enc == "bin":
                 o["head"] = struct.unpack_from(INT_FMT, piece, 0)[0]
                 o["tail"] = struct.unpack_from(INT_FMT, piece, len(piece) - 4)[0]
@@ -457,6 +487,8 @@ _RW_NAME = {"int": "RwInt", "bool": "RwBool", "long": "RwLong", "float": "RwFloa
 
 
 def record_traces(ntraces, maxrecs, maxfields, seed):
+    """Whatever the real writer does (raises, leaves a truncated frame), the history is logged and left to TLC to
+    reject: a post-state of -1 can never match the specification."""
     cccc = cccc_mod()
     r = random.Random(seed * 104729 + 7)
     traces = []
@@ -466,27 +498,50 @@ def record_traces(ntraces, maxrecs, maxfields, seed):
         stream = io.BytesIO() if enc == "bin" else io.StringIO()
         pool = Pool(r.randrange(1 << 30))
         ev = []
+        broken = False
         for _ in range(r.randrange(1, maxrecs + 1)):
+            if broken:
+                break
             start = len(stream.getvalue())
             rec = W(stream)
-            rec.open()
-            ev.append({"a": {"n0": "Open"}, "post": {"numBytes": rec.numBytes, "payload": sum(len(x) for x in rec.data)}})
+            try:
+                rec.open()
+                ev.append({"a": {"n0": "Open"}, "post": {"numBytes": rec.numBytes, "payload": sum(len(x) for x in rec.data)}})
+            except Exception:  # noqa: BLE001
+                ev.append({"a": {"n0": "Open"}, "post": {"numBytes": -1, "payload": -1}})
+                broken = True
+                break
             for _ in range(r.randrange(0, maxfields + 1)):
                 f = random_field(r, enc)
                 f["vc"] = "typ"
                 vals = _field_values(f, pool)
-                _write_field(rec, f, vals)
                 a = {"n0": _RW_NAME[f["k"]] if f["c"] == "s" else ("RwList" if f["c"] == "l" else "RwMatrix"),
                      "k": f["k"], "c": f["c"], "n": f["n"], "w": f["w"], "sh": f["sh"]}
-                ev.append({"a": a, "post": {"numBytes": rec.numBytes, "payload": sum(len(x) for x in rec.data)}})
-            rec.close()
-            piece = stream.getvalue()[start:]
-            if enc == "bin":
-                post = {"head": struct.unpack_from(INT_FMT, piece, 0)[0], "len": len(piece) - 8,
-                        "tail": struct.unpack_from(INT_FMT, piece, len(piece) - 4)[0]}
-            else:
-                post = {"head": int(piece[:ASC_INT]), "len": len(piece) - 2 * ASC_INT - 1, "tail": int(piece[-ASC_INT - 1: -1])}
+                try:
+                    _write_field(rec, f, vals)
+                    ev.append({"a": a, "post": {"numBytes": rec.numBytes, "payload": sum(len(x) for x in rec.data)}})
+                except Exception:  # noqa: BLE001
+                    ev.append({"a": a, "post": {"numBytes": -1, "payload": -1}})
+                    broken = True
+                    break
+            if broken:
+                break
+            post = {"head": -1, "len": -1, "tail": -1}
+            try:
+                rec.close()
+                piece = stream.getvalue()[start:]
+                if enc == "bin" and len(piece) >= 8:
+                    post = {"head": struct.unpack_from(INT_FMT, piece, 0)[0], "len": len(piece) - 8,
+                            "tail": struct.unpack_from(INT_FMT, piece, len(piece) - 4)[0]}
+                elif enc == "asc" and len(piece) >= 2 * ASC_INT + 1:
+                    post = {"head": int(piece[:ASC_INT]), "len": len(piece) - 2 * ASC_INT - 1, "tail": int(piece[-ASC_INT - 1: -1])}
+                else:
+                    post = {"head": -1, "len": len(piece), "tail": -1}      # truncated frame
+            except Exception:  # noqa: BLE001
+                pass
             ev.append({"a": {"n0": "Close"}, "post": post})
+            if post["head"] == -1:
+                broken = True
         traces.append({"id": "r%d" % t, "enc": enc, "ev": ev})
     return traces
 
@@ -623,6 +678,37 @@ class Adapter:
     def finish(self, c):
         pass
 
+    # ---- public entry points other than the prescribed stream (CcccFormats!EntriesOf)
+    def entries(self):
+        import importlib
+
+        out = []
+        for e in self.case.get("entries", []):
+            mod = importlib.import_module("armi.nuclearDataIO.cccc." + e["mod"])
+            if e["kind"] == "factory":
+                try:
+                    tgt = getattr(mod, e["fn"])(*[bool(a) for a in e["args"]])
+                except Exception as ex:  # noqa: BLE001
+                    out.append(("%s.%s" % (e["mod"], e["fn"]), ex, None))
+                    continue
+                name = "%s.%s" % (e["mod"], e["fn"])
+            elif e["kind"] == "class":
+                tgt, name = getattr(mod, e["fn"]), "%s.%s" % (e["mod"], e["fn"])
+            else:
+                tgt, name = mod, "%s.module-functions" % e["mod"]
+
+            def rd(fn, enc, tgt=tgt):
+                return (tgt.readBinary if enc == "bin" else tgt.readAscii)(fn)
+
+            def wr(c, fn, enc, tgt=tgt):
+                return (tgt.writeBinary if enc == "bin" else tgt.writeAscii)(c, fn)
+
+            out.append((name, rd, wr))
+        return out
+
+    def _named_stream(self, module):
+        return getattr(module, self.case["stream"]) if self.case.get("stream", "module") != "module" else None
+
     # ---- defaults for StreamWithDataContainer formats
     stream = None
 
@@ -694,14 +780,14 @@ class RtfluxA(Adapter):
     def stream(self):
         from armi.nuclearDataIO.cccc import rtflux
 
-        return rtflux.AtfluxStream if self.h["adjoint"] else rtflux.RtfluxStream
+        return self._named_stream(rtflux)       # the class the specification prescribes (StreamOf), not the factory
 
 
 class NhfluxA(Adapter):
     def stream(self):
         from armi.nuclearDataIO.cccc import nhflux
 
-        return nhflux.getNhfluxReader(self.h["adjoint"], self.h["variant"])
+        return self._named_stream(nhflux)       # the class the specification prescribes (StreamOf), not the factory
 
 
 class Dif3dA(Adapter):
@@ -1159,96 +1245,144 @@ def _backtrack(recs, i, enc):
     return i
 
 
+def _run_enc(case, ad, enc, seed, scratch, stages, add, calls):
+    """All stages of one case in one encoding.  `add(stage, what, text)` records a divergence; stages[enc] tracks how
+    far the case got.  Only the real reader / writer may raise here: their exceptions are verdicts; everything the
+    harness does with their output is total (truncated or malformed output is measured, not trusted)."""
+    fmt = case["fmt"]
+    f1, f2 = scratch.paths
+    c, vals = ad.build(seed)
+    try:
+        ad.write(c, f1, enc)
+    except Exception as ex:  # noqa: BLE001
+        site, et = _site(ex, fmt)
+        add("write-raises", site + ":" + et, "writer raised %s in %s" % (et, site))
+        return
+    stages[enc] = "written"
+    buf, frames, prob = _measure(f1, enc)
+    d = _frames_diff(case, enc, frames, prob)
+    if d:
+        wc = ascii_width_class(buf) if enc == "asc" else None
+        if wc:
+            add(None, "ascii:width:" + wc, "%s ASCII: %s" % (fmt, d[1]))
+        else:
+            add("frames", d[0], d[1])
+        return
+    try:
+        c2 = ad.read(f1, enc)
+    except Exception as ex:  # noqa: BLE001
+        site, et = _site(ex, fmt)
+        add("read-raises", site + ":" + et, "reader raised %s in %s on the file the writer produced" % (et, site))
+        return
+    stages[enc] = "read"
+    lost = set()
+    for path, d in ad.compare(c2, vals, enc):
+        what = re.sub(r":\d+:", ":", path)
+        if what not in lost:
+            lost.add(what)
+            add("readback", what, "%s: %s" % (path, d))
+    # a datum that does not come back is reported; the remaining stages still run on what was read
+    try:
+        ad.write(c2, f2, enc)
+    except Exception as ex:  # noqa: BLE001
+        site, et = _site(ex, fmt)
+        add("rewrite-raises", site + ":" + et, "writing what was read raised %s in %s" % (et, site))
+        return
+    buf2 = _measure(f2, enc)[0]
+    if buf2 != buf:
+        pos = next((i for i, (a, b) in enumerate(zip(buf, buf2)) if a != b), min(len(buf), len(buf2)))
+        add("rewrite-differs", "bytes", "writing what was read differs from the file at offset %d (lengths %d / %d)" % (pos, len(buf), len(buf2)))
+        return
+    stages[enc] = "rewritten"
+    # every other public entry point for this (format, flags) must behave like the prescribed stream
+    for ent in ad.entries():
+        name = ent[0]
+        if ent[2] is None:
+            site, et = _site(ent[1], fmt)
+            add("entry-raises", "%s:%s:%s" % (name, site, et), "%s raised %s" % (name, et))
+            return
+        _, rd, wr = ent
+        try:
+            ce = rd(f1, enc)
+        except Exception as ex:  # noqa: BLE001
+            site, et = _site(ex, fmt)
+            add("entry-raises", "%s:read:%s:%s" % (name, site, et), "reading through %s raised %s in %s" % (name, et, site))
+            return
+        bad = ad.compare(ce, vals, enc)
+        if bad:
+            add("entry-readback", "%s:%s" % (name, re.sub(r":\d+:", ":", bad[0][0])),
+                "read through %s instead of %s: %s: %s" % (name, case.get("stream"), bad[0][0], bad[0][1]))
+            return
+        c4, _ = ad.build(seed)
+        try:
+            wr(c4, f2, enc)
+        except Exception as ex:  # noqa: BLE001
+            site, et = _site(ex, fmt)
+            add("entry-raises", "%s:write:%s:%s" % (name, site, et), "writing through %s raised %s in %s" % (name, et, site))
+            return
+        if _measure(f2, enc)[0] != buf:
+            add("entry-write-differs", name, "the file written through %s differs from the one written through %s" % (name, case.get("stream")))
+            return
+    stages[enc] = "entries"
+    if calls:
+        # the same write and read again with call-logging records: field kinds and counts per record
+        c3, _ = ad.build(seed)
+        try:
+            with logged_streams() as log:
+                ad.write(c3, f2, enc)
+        except Exception as ex:  # noqa: BLE001
+            site, et = _site(ex, fmt)
+            add("write-nondeterministic", "raises:" + site + ":" + et, "a second write of an equal container raised %s in %s" % (et, site))
+            return
+        if _measure(f2, enc)[0] != buf:
+            add("write-nondeterministic", "bytes", "two writes of equal containers produced different files (uninitialised data written?)")
+            return
+        d = _calls_diff(case, log.records)
+        if d:
+            add("calls-write", d[0], d[1])
+            return
+        try:
+            with logged_streams() as log:
+                ad.read(f1, enc)
+        except Exception as ex:  # noqa: BLE001
+            site, et = _site(ex, fmt)
+            add("read-nondeterministic", "raises:" + site + ":" + et, "a second read of the same file raised %s in %s" % (et, site))
+            return
+        d = _calls_diff(case, log.records)
+        if d:
+            add("calls-read", d[0], d[1])
+            return
+    stages[enc] = "complete"
+
+
 def run_format_case(case, seed, scratch, calls=True):
-    """-> list of (key, text, extra): the first divergence per encoding.  Keys name format, failing stage and
-    call site / record tag / datum."""
+    """-> list of (key, text, extra): the first divergence per encoding (read-back lists every lost datum).
+    Keys: FMT:stage:what:class[:ascii-only]."""
     fmt = case["fmt"]
     cls = case.get("cls", "any")     # input class of the header (CcccFormats!ClassOf): part of every key
-    ad = ADAPTERS[fmt](case)
+    try:
+        ad = ADAPTERS[fmt](case)
+        ad.build(seed)
+    except Exception as ex:  # noqa: BLE001 -- nothing of the real reader/writer has run yet: a generator problem
+        raise RuntimeError("generator could not build a %s container for %r: %s: %s" % (fmt, case["h"], type(ex).__name__, ex)) from ex
     out = []
     seen_bin = set()
     stages = {}
     for enc in case["encs"]:
-        f1, f2 = scratch.paths
         found = []
         stages[enc] = "build"
 
         def add(stage, what, text):
-            found.append(("%s:%s:%s:%s" % (fmt, stage, what, cls),
-                          "%s %s [%s]: %s" % (fmt, "binary" if enc == "bin" else "ASCII", cls, text)))
+            key = what if stage is None else "%s:%s:%s:%s" % (fmt, stage, what, cls)
+            found.append((key, "%s %s [%s]: %s" % (fmt, "binary" if enc == "bin" else "ASCII", cls, text)))
 
         try:
-            c, vals = ad.build(seed)
-        except Exception as ex:  # noqa: BLE001
-            raise RuntimeError("generator could not build a %s container for %r: %s: %s" % (fmt, case["h"], type(ex).__name__, ex)) from ex
-        stop = False
-        try:
-            ad.write(c, f1, enc)
-        except Exception as ex:  # noqa: BLE001
-            site, et = _site(ex, fmt)
-            add("write-raises", site + ":" + et, "writer raised %s in %s" % (et, site))
-            stop = True
-        if not stop:
-            stages[enc] = "written"
-            buf, frames, prob = _measure(f1, enc)
-            d = _frames_diff(case, enc, frames, prob)
-            if d:
-                wc = ascii_width_class(buf) if enc == "asc" else None
-                if wc:
-                    found.append(("ascii:width:" + wc, "%s ASCII: %s" % (fmt, d[1])))
-                else:
-                    add("frames", d[0], d[1])
-            stop = bool(found)
-        if not stop:
-            try:
-                c2 = ad.read(f1, enc)
-            except Exception as ex:  # noqa: BLE001
-                site, et = _site(ex, fmt)
-                add("read-raises", site + ":" + et, "reader raised %s in %s on the file the writer produced" % (et, site))
-                stop = True
-        if not stop:
-            stages[enc] = "read"
-            lost = set()
-            for path, d in ad.compare(c2, vals, enc):
-                what = re.sub(r":\d+:", ":", path)
-                if what not in lost:
-                    lost.add(what)
-                    add("readback", what, "%s: %s" % (path, d))
-            # a datum that does not come back is reported; the remaining stages still run on what was read
-            try:
-                ad.write(c2, f2, enc)
-                buf2 = _measure(f2, enc)[0]
-                if buf2 != buf:
-                    pos = next((i for i, (a, b) in enumerate(zip(buf, buf2)) if a != b), min(len(buf), len(buf2)))
-                    add("rewrite-differs", "bytes", "writing what was read differs from the file at offset %d (lengths %d / %d)" % (pos, len(buf), len(buf2)))
-            except Exception as ex:  # noqa: BLE001
-                site, et = _site(ex, fmt)
-                add("rewrite-raises", site + ":" + et, "writing what was read raised %s in %s" % (et, site))
-            stop = any(":rewrite-" in k for k, _ in found)
-        if not stop:
-            stages[enc] = "rewritten"
-            if calls:
-                # the same write and read again with call-logging records: field kinds and counts per record
-                c3, _ = ad.build(seed)
-                try:
-                    with logged_streams() as log:
-                        ad.write(c3, f2, enc)
-                    d = _calls_diff(case, log.records)
-                    if d:
-                        add("calls-write", d[0], d[1])
-                    if _measure(f2, enc)[0] != buf:
-                        raise RuntimeError("instrumented writer produced different bytes")
-                    if not d:
-                        with logged_streams() as log:
-                            ad.read(f1, enc)
-                        d = _calls_diff(case, log.records)
-                        if d:
-                            add("calls-read", d[0], d[1])
-                except RuntimeError:
-                    raise
-                except Exception as ex:  # noqa: BLE001
-                    raise RuntimeError("instrumented run behaves differently from the plain one: %s: %s" % (type(ex).__name__, ex)) from ex
-            stages[enc] = "complete"
+            with watchdog(CASE_TIMEOUT):
+                _run_enc(case, ad, enc, seed, scratch, stages, add, calls)
+        except CaseTimeout:
+            add("timeout", "after-" + stages[enc], "the real code did not finish within %g s (stage after '%s')" % (CASE_TIMEOUT, stages[enc]))
+        except (MemoryError, RecursionError) as ex:
+            add("exhausted", "%s:after-%s" % (type(ex).__name__, stages[enc]), "the real code exhausted resources: %s" % type(ex).__name__)
         for key, text in found:
             if enc == "bin":
                 seen_bin.add(key)
@@ -1273,6 +1407,8 @@ def isotxs_loca(case, seed, scratch):
     off = sum(8 + f[1] for f in frames[:2]) + 4
     n = case["h"]["nNuc"]
     end = off + frames[2][1]
+    if frames[2][1] < 4 * n or end > len(buf):
+        return None
     return list(struct.unpack_from("%di" % n, buf, end - 4 * n))
 
 
